@@ -154,6 +154,8 @@ func (br *bodyRun) step(st *State, ins ssa.Instruction, b *ssa.BasicBlock, idx i
 		mt := x.Map.Type().Underlying().(*types.Map)
 		m := fc.val(x.Map).(Scalar).T
 		fc.obligeNoName(st, not(eq(m, "0")), br, "nil", x.Pos(), "assignment to entry in nil map")
+		// execution continues past the store only when the map is not nil (a nil map panics)
+		fc.assume(st, not(eq(m, "0")))
 		fc.mapStore(st, m, mt, fc.val(x.Key), fc.storable(mt.Elem(), fc.val(x.Value)))
 	case *ssa.Lookup:
 		if mt, ok := x.X.Type().Underlying().(*types.Map); ok {
